@@ -259,6 +259,31 @@ CHECK_DEADLOCK FALSE
                            [("set_many", o[1]) for o in last] + [("get_many", o[1]) for o in last])
         traces.append({"h": {}, "ev": evs, "what": ("real", nsrv, len(universe))})
 
+    # ---- (iii) targeted: the caller grows the server set between two operations on the SAME key (no other key in between);
+    # keys are chosen so that the new server takes them over.  Deterministic (no sampling).
+    from pymemcache.client.rendezvous import RendezvousHash
+    for nsrv in (1, 2, 3):
+        for pooling in (False, True):
+            for ki in range(40):
+                k = "grow-%d-%d" % (nsrv, ki)
+                log = []
+                net, hc, specs, names = build(nsrv, make_logging_hasher(log), prefix=b"", pooling=pooling)
+                newkey = ("mc-new.example", 11300)
+                before = RendezvousHash(list(names)).get_node(k)
+                after = RendezvousHash(list(names) + ["%s:%s" % newkey]).get_node(k)
+                if before == after or ki % 2 and nsrv > 1:
+                    continue                         # this key would not move
+                rec = Recorder(net, hc, specs, names, b"", log)
+                first = ["set", "get", "touch", "delete"][ki % 4]
+                evs = run_ops(rec, hc, [(first, [k])])
+                net.add_server(newkey)
+                hc.add_server(newkey) if ki % 3 else hc.add_server(newkey[0], newkey[1])
+                rec.specs = list(rec.specs) + [newkey]
+                rec.names = list(rec.names) + ["%s:%s" % newkey]
+                evs.append({"e": "servers"})
+                evs += run_ops(rec, hc, [("set", [k]), ("get_many", ["other-%d" % ki, k]), ("get", [k]), ("gets_many", [k]),
+                                         ("delete", [k]), ("get", [k])])
+                traces.append({"h": {}, "ev": evs, "what": ("growth", nsrv, k)})
     for t in traces:
         t["h"] = {"maxrej": 4}
     acc, rej, st, _ = tlc.validate_traces("RouteTrace", [{"h": t["h"], "ev": t["ev"]} for t in traces], chunk=3000)
